@@ -76,6 +76,19 @@ def reset_event_counter() -> None:
     global _global_event_counter
     _global_event_counter = count()
 
+
+def _advance_event_counter(floor: int = 0) -> int:
+    """Make the global counter continue at or after ``floor`` and return its next value.
+
+    Keeps sort indices monotone in creation order across the boundary between
+    events created inside ``Simulation.run()`` (per-heap counter) and events
+    created outside of it (global counter).
+    """
+    global _global_event_counter
+    start = max(floor, _global_event_counter.__next__())
+    _global_event_counter = count(start)
+    return start
+
 # Event-level tracing flag — disabled by default for performance.
 # When enabled, Event.invoke() records stack/trace spans in event.context.
 # The visual debugger enables this via enable_event_tracing().
